@@ -21,6 +21,7 @@ import (
 	"github.com/lidofinance/dc4bc/fsm/state_machines/signature_proposal_fsm"
 	"github.com/lidofinance/dc4bc/fsm/state_machines/signing_proposal_fsm"
 	"github.com/lidofinance/dc4bc/fsm/types/requests"
+	"github.com/lidofinance/dc4bc/fsm/types/responses"
 )
 
 const (
@@ -286,6 +287,14 @@ func (am *Machine) writeErrorRequestToOperation(o *client.Operation, handlerErro
 		Error:         requests.NewFSMError(handlerError),
 		ParticipantId: pid,
 		CreatedAt:     o.CreatedAt,
+	}
+	if fsm.State(o.Type) == signing_proposal_fsm.StateSigningAwaitPartialSigns {
+		// say which batch could not be signed: the report may reach the nodes
+		// when they are already busy with the next batch
+		var payload responses.SigningPartialSignsParticipantInvitationsResponse
+		if err := json.Unmarshal(o.Payload, &payload); err == nil {
+			req.BatchID = payload.BatchID
+		}
 	}
 	errorEvent := eventToErrorMap[fsm.State(o.Type)]
 	reqBz, err := json.Marshal(req)
